@@ -187,3 +187,17 @@ def r8_prune(ctx):
 
 
 RULES += [r4_def_use, r4b_table, r6_visit_exec, r7_conv_op, r8_prune]
+
+
+def r9_initial_states(ctx):
+    ctx.rule("C01.r9", "the initial states are an input of EVERY predecessor join at the block the analysis starts at (vertex visit, "
+             "cycle entry, ascending and descending re-joins), and no visit analyses a block with its stored pre-state", floor=4)
+    it.initial_states_rule(ctx, "C01.r9")
+
+
+def r10_self_loop(ctx):
+    from . import C07
+    C07.r6_self_loop_head(ctx, rid="C01.r10")
+
+
+RULES += [r9_initial_states, r10_self_loop]
